@@ -161,9 +161,12 @@ Record row := { r_fn : string; r_try : trystmt }.
    - Environment._filter_test_common: the body only calls _fail_with_undefined_error() of the
      engine's own Undefined object to build an error message, then raises TemplateRuntimeError;
    - debug.fake_traceback: the body executes the engine's own one-line "raise
-     __jinja_exception__" stub to obtain a traceback object. *)
+     __jinja_exception__" stub to obtain a traceback object;
+   - sandbox.SandboxedEnvironment.call: the body only takes repr() of a callable the sandbox has
+     already refused, to word the SecurityError it raises next whatever repr() does. *)
 Definition exempt_fns : list string :=
-  ["tests.test_sequence"; "environment.Environment._filter_test_common"; "debug.fake_traceback"]%string.
+  ["tests.test_sequence"; "environment.Environment._filter_test_common"; "debug.fake_traceback";
+   "sandbox.SandboxedEnvironment.call"]%string.
 
 Definition is_exempt (f : string) : bool := existsb (String.eqb f) exempt_fns.
 
